@@ -697,13 +697,13 @@ def _n(pid, text, note, technique=None):
 
 
 _TIE = ("Trusted: Lean kernel (axioms of every listed theorem checked to be within propext/Classical.choice/Quot.sound; thorough tier re-checks "
-        "the modules with leanchecker), the translators (translate.py: constants, allocation ranges, schema scripts; translate_sql.py: the 49 "
+        "the modules with leanchecker), the translators (translate.py: constants, allocation ranges, the statements of _find_available_nameplate_id (as the Lean definition genFindAvailable), schema scripts; translate_sql.py: the 49 "
         "SQL statements of server.py; translate_ws.py / translate_wsbody.py: onMessage and all handle_* of server_websocket.py; "
         "translate_summ.py: the two usage-summary functions; translate_tap.py: expire()/TimerService; translate_srv.py: the bodies of twenty "
-        "methods of Mailbox/AppNamespace/Server - everything the websocket handlers and the sweep call except AppNamespace.prune and "
-        "the search loop of _find_available_nameplate_id; translate_wire.py: constructors and construction sites from makeService down, the option table) with the "
+        "methods of Mailbox/AppNamespace/Server - everything the websocket handlers and the sweep call except AppNamespace.prune; "
+        "translate_wire.py: constructors and construction sites from makeService down, the option table) with the "
         "semantics Lean gives their output (Sql.lean, WsGuards.lean, PyWs.lean, PySum.lean, PyTap.lean, PySrv.lean, Wire.lean) - for those parts the model is PROVED equal to the translation of the current source on every run (Tie/*.lean, "
-        "e.g. onMessage_eq_reach); the rest of the hand-written model (AppNamespace.prune, allocate's search loop, the registries of objects/listeners, onOpen/onClose, database.py) is tied "
+        "e.g. onMessage_eq_reach); the rest of the hand-written model (AppNamespace.prune, the registries of objects/listeners, onOpen/onClose, database.py) is tied "
         "to the code by differential execution on generated histories every run, not proved; impl.py runner; SQLite/CPython/Twisted/Autobahn "
         "modelled, not verified. Environment assumptions are exactly the fields of GSys.WFOp (fresh connection ids, monotone time, fresh "
         "generated mailbox ids).")
